@@ -22,11 +22,20 @@ for ng in (122, 123, 124, 125, 126, 127):
 def short_uw(l):
     d = seed_uw(); d.update({k: l + 2 for k in ("strcmp.0", "strncmp.0", "hwloc__type_match.0", "strchr.0", "strspn.0", "strspn.1", "strcspn.0", "strcspn.1", "vp_strto.0", "vp_strto.1", "strncasecmp.0", "strlen.0",
                                                  "hwloc_backend_synthetic_init.0", "hwloc_backend_synthetic_init.1", "hwloc_backend_synthetic_init.2", "hwloc_synthetic_parse_attrs.0", "hwloc__osdev_types_sscanf.0")}); return d
-HARNESSES.append(dict(COMMON, name="parse_bytes", entry="h_parse_bytes", encoded=PARSE, checks="safety+", tiers={"quick": {"defines": {"L": 2, "HWLOC_VERIF_SYNTHETIC_MAX_DEPTH": 6}, "unwindset": short_uw(2), "unwind": 8}, "thorough": {"defines": {"L": 3, "HWLOC_VERIF_SYNTHETIC_MAX_DEPTH": 6}, "unwindset": short_uw(3), "unwind": 8, "timeout": 8000}},
+HARNESSES.append(dict(COMMON, name="parse_bytes", entry="h_parse_bytes", encoded=PARSE, checks="safety+", tiers={"thorough": {"defines": {"L": 3, "HWLOC_VERIF_SYNTHETIC_MAX_DEPTH": 6}, "unwindset": short_uw(3), "unwind": 8, "timeout": 8000}},
                       bounds="every NUL-terminated string of L arbitrary bytes (L = 2 quick, 3 thorough) in an exactly sized object", core=False, cost=60))
 HARNESSES.append(dict(COMMON, name="indexes_types", entry="h_indexes_types", defines={"HWLOC_VERIF_SYNTHETIC_MAX_DEPTH": 8}, encoded=PARSE, tiers={"quick": {}, "thorough": {}}, unwind=20, unwindset=dict(init_uw(24), **{"hwloc_synthetic_process_indexes.0": 24, "hwloc_synthetic_process_indexes.1": 24, "hwloc_synthetic_process_indexes.2": 24, "hwloc_synthetic_process_indexes.3": 24, "hwloc_synthetic_process_indexes.4": 24, "hwloc_synthetic_process_indexes.5": 24, "hwloc_synthetic_process_indexes.6": 24, "hwloc_synthetic_process_indexes.7": 24, "h_indexes_types.0": 6, "h_indexes_types.1": 6, "h_indexes_types.2": 6, "h_indexes_types.3": 6, "indexes_case.0": 40, "indexes_case.1": 6, "indexes_case.2": 6, "indexes_case.3": 6, "indexes_case.4": 20, "indexes_case.5": 20, "strlen.0": 64, "strchr.0": 70}),
                       bounds="pack:2 numa:2 core:2 pu:2(indexes=T1:T2:T3) with every choice of T1,T2,T3 among pack/numa/core (27 strings incl. invalid duplicates), chosen symbolically among concretely built texts", cost=60, object_bits=13))
 HARNESSES.append(dict(COMMON, name="export_cursor", entry="h_export_cursor", defines={"HWLOC_VERIF_SYNTHETIC_MAX_DEPTH": 8}, unwind=68,
                       encoded=["hwloc_topology_export_synthetic", "hwloc__export_synthetic_obj", "hwloc__export_synthetic_obj_attr", "hwloc__export_synthetic_indexes", "hwloc__export_synthetic_memory_children", "hwloc__export_synthetic_add_char", "hwloc__export_synthetic_update_status", "hwloc_check_memory_symmetric"],
                       tiers={"quick": {}, "thorough": {}}, bounds="seed S1 (symmetric, PU os_index 0,1,2,5); any 64-bit flag word; buffer length 0..64; symbolic canary", cost=80))
-OUTSIDE = ["loading the parsed table into objects (hwloc_look_synthetic) and comparing two loaded topologies", "128-level strings with symbolic content at every level", "memory/cache size attributes round trip"]
+SL_UW = seed_uw(**{"strcmp.0": 16, "strncmp.0": 16, "hwloc__type_match.0": 20, "strchr.0": 100, "strspn.0": 40, "strspn.1": 14, "vp_strto.0": 12, "vp_strto.1": 14, "strncasecmp.0": 16, "strlen.0": 100, "strcpy.0": 100, "strdup.0": 100, "realloc.0": 200})
+for k in range(16): SL_UW["h_synload.%d" % k] = 98
+for k in range(14): SL_UW["hwloc_backend_synthetic_init.%d" % k] = 24
+for k in range(12): SL_UW["hwloc_synthetic_process_indexes.%d" % k] = 24
+for d, tiers in ((0, {"quick": {}, "thorough": {}}), (1, {"quick": {}, "thorough": {}}), (2, {"quick": {}, "thorough": {}}), (3, {"quick": {}, "thorough": {}}), (4, {"thorough": {}}), (5, {"quick": {}, "thorough": {}}), (6, {"quick": {}, "thorough": {}})):
+    HARNESSES.append(dict(COMMON, src="C07_synload.c", name="synload_d%d" % d, entry="h_synload", defines={"DESC": d}, unwind=24, unwindset=SL_UW, object_bits=13, tiers=tiers, cost=120,
+                          encoded=PARSE + ["hwloc_look_synthetic", "hwloc__look_synthetic", "hwloc_synthetic_insert_attached", "hwloc_synthetic_set_attr", "hwloc_synthetic_next_index", "hwloc_discover", "hwloc__insert_object_by_cpuset", "hwloc_filter_levels_keep_structure", "hwloc_connect_levels",
+                                           "hwloc_topology_export_synthetic", "hwloc__export_synthetic_obj", "hwloc__export_synthetic_indexes", "hwloc__export_synthetic_memory_children"],
+                          bounds="one concrete description (#%d of 7: plain levels, explicit and interleaved index lists, NUMA as a level and attached, cache sizes, a mergeable Group level) through parser + real discovery pipeline + C01 checker + expectations + export + reload + comparison + re-export; the run is concrete (CBMC as a bounds-checking interpreter)" % d))
+OUTSIDE = ["descriptions other than the 7 loaded ones (the parser itself: depth_*, indexes_types, parse_bytes)", "128-level strings with symbolic content at every level", "memory/cache size attributes round trip"]
